@@ -95,7 +95,25 @@ def merge(results):
     return m
 
 
+def sweep_stale_scratch(max_age_s=6 * 3600):
+    """stale scratch left in /dev/shm by shards that were killed by a watchdog (checks clean up after themselves otherwise)"""
+    import shutil
+    base = "/dev/shm"
+    if not os.path.isdir(base):
+        return
+    now = time.time()
+    for n in os.listdir(base):
+        if n.startswith(("vf_c0", "vf_C", "vf_seed_", "vf_mut_", "vf_ev_")):
+            p = os.path.join(base, n)
+            try:
+                if now - os.path.getmtime(p) > max_age_s:
+                    shutil.rmtree(p, ignore_errors=True) if os.path.isdir(p) else os.unlink(p)
+            except OSError:
+                pass
+
+
 def main(argv):
+    sweep_stale_scratch()
     if len(argv) < 2:
         print("usage: check CNN quick|thorough | check CNN --replay FILE")
         return 2
